@@ -189,11 +189,13 @@ static void pic_sweep(struct ubuf *u, struct pic_model *m, bool full)
     }
 }
 
+static int g_level;
 static void pic_resize_chain(struct cumem_mgr *c, struct ubuf *u, struct pic_model m, int depth, int G, int VG, uint8_t *areasnap, size_t arealen,
                              uint8_t *areabuf)
 {
     if (depth == 0)
         return;
+    g_level++;
     int hsk[] = {0, G, -G, 2 * G, -2 * G, m.H, m.H + G, -m.hpre - G, 1, -1};
     int vsk[] = {0, VG, -VG, 2 * VG, -2 * VG, m.V, m.V + VG, -m.vpre - VG};
     for (unsigned a = 0; a < sizeof(hsk) / sizeof(int); a++)
@@ -248,7 +250,8 @@ static void pic_resize_chain(struct cumem_mgr *c, struct ubuf *u, struct pic_mod
                                 pic_check_alloc(c, &n);
                                 n_states++;
                                 n_nontriv++;
-                                pic_sweep(d, &n, false);
+                                if (g_level == 1) /* every window of the resized picture; deeper levels judge acceptance and geometry only */
+                                    pic_sweep(d, &n, false);
                                 if (memcmp(areasnap, areabuf, arealen))
                                     report("pic:resize-modifies-memory", "resize or mapping changed pixel memory");
                                 pic_resize_chain(c, d, n, depth - 1, G, VG, areasnap, arealen, areabuf);
@@ -261,8 +264,12 @@ static void pic_resize_chain(struct cumem_mgr *c, struct ubuf *u, struct pic_mod
                     ubuf_free(d);
                 }
         }
+    g_level--;
 }
 
+static int g_hsizes, g_deep;
+static double g_deadline = 1e9, g_t0;
+static bool g_capped;
 static void run_pictures(int shard, int nshards, int nsizes, int chain)
 {
     int nfmt = UBASE_ARRAY_SIZE(uref_pic_flow_formats);
@@ -288,8 +295,12 @@ static void run_pictures(int shard, int nshards, int nsizes, int chain)
                 for (int ao = -1; ao <= 1; ao++) {
                     if (aligns[ai] == 0 && ao != 0)
                         continue;
-                    for (int hi = 1; hi <= nsizes; hi++)
+                    for (int hi = 1; hi <= (g_hsizes ? g_hsizes : nsizes); hi++)
                         for (int vi = 1; vi <= nsizes; vi++) {
+                            if (g_capped || v_now() - g_t0 > g_deadline) {
+                                g_capped = true;
+                                continue;
+                            }
                             struct cumem_mgr cu;
                             cumem_mgr_init(&cu);
                             int hgm = G / base.mp; /* granule in macropixels */
@@ -384,8 +395,13 @@ static void run_pictures(int shard, int nshards, int nsizes, int chain)
                                 }
                                 if (memcmp(snap, areabuf, arealen))
                                     report("pic:mapping-modifies-memory", "mapping / dup / split changed pixel memory");
-                                if (chain > 0 && hi <= 2 && vi <= 2)
-                                    pic_resize_chain(&cu, u, m, chain, G, VG, snap, arealen, areabuf);
+                                if (chain > 0 && hi <= 2 && vi <= 2) {
+                                    /* second-level resizes: --deep 1: pictures with margins on all sides, no alignment, one granule;
+                                     * --deep 2: every margin setting, no alignment, <= 2 granules */
+                                    bool deep = chain >= 2 && aligns[ai] == 0 &&
+                                                (g_deep >= 2 || (g_deep == 1 && (mi == 3 || mi == 5) && hi == 1 && vi == 1));
+                                    pic_resize_chain(&cu, u, m, deep ? 2 : 1, G, VG, snap, arealen, areabuf);
+                                }
                             }
                             free(snap);
                             ubuf_free(u);
@@ -519,6 +535,9 @@ int main(int argc, char **argv)
     for (int i = 1; i + 1 < argc; i++) {
         if (!strcmp(argv[i], "--what")) sound = !strcmp(argv[i + 1], "sound");
         else if (!strcmp(argv[i], "--fmt-shard")) sscanf(argv[i + 1], "%d/%d", &shard, &nshards);
+        else if (!strcmp(argv[i], "--hsizes")) g_hsizes = atoi(argv[i + 1]);
+        else if (!strcmp(argv[i], "--deep")) g_deep = atoi(argv[i + 1]);
+        else if (!strcmp(argv[i], "--deadline")) g_deadline = atof(argv[i + 1]);
         else if (!strcmp(argv[i], "--sizes")) nsizes = atoi(argv[i + 1]);
         else if (!strcmp(argv[i], "--chain")) chain = atoi(argv[i + 1]);
         else if (!strcmp(argv[i], "--replay")) {
@@ -528,10 +547,13 @@ int main(int argc, char **argv)
     }
     setvbuf(stdout, NULL, _IOLBF, 0);
     v_crash_open();
+    g_t0 = v_now();
     if (sound)
         run_sound(chain);
     else
         run_pictures(shard, nshards, nsizes, chain);
+    if (g_capped)
+        v_incomplete("c19 shard %d/%d: deadline %.0fs hit; remaining pictures of this shard were not explored", shard, nshards, g_deadline);
     v_stat("states", n_states);
     v_stat("transitions", n_trans);
     v_stat("executions", n_trans);
